@@ -1,4 +1,6 @@
 import MpgsModel.Lemmas.WebSocketStream
+import MpgsModel.Lemmas.WebSocketSegment
+import MpgsModel.Lemmas.WebSocketUtf8
 /-!
 # C18 — WebSocket frames round-trip per RFC 6455; TCP segmentation is harmless
 
@@ -68,6 +70,12 @@ theorem C18_close_frame_rfc (status : Nat) (message : Buf) (hm : message.length 
     have : ¬ status < 65536 := by omega
     simp [LibFrame.Close, packH, this]
 
+/-- error branch of the writer: a `payload_length` attribute that does not fit 64 bits makes
+`writeDataHeader` raise `struct.error` after the two header bytes have already been sent. -/
+theorem C18_write_too_long (lf : LibFrame) (hw : lf.opcode.isWire = true)
+    (h : 2 ^ 64 ≤ lf.payloadLength) : ∃ hdr, writeFrame lf = ([hdr], some .structError) :=
+  writeFrame_too_long lf hw h
+
 /-- The encoded length field at and around every boundary of the three length forms, for every
 wire opcode and every payload of that length. -/
 theorem C18_boundaries (op : OpCode) (p : Buf) (hw : op.isWire = true) :
@@ -122,6 +130,9 @@ theorem C18_roundtrip (op : OpCode) (payload rest : Buf) (hw : op.isWire = true)
       (rest, .ok { LibFrame.build op payload with length7 := Rfc.lenCode payload.length }) := by
   rw [(C18_server_frames_rfc op payload hw hn).2]
   exact (C18_parse_rfc _ rest hw hn).1
+
+example : readFrame ((writeFrame (.build .ping [1, 2, 3])).1.flatten ++ [9, 9]) =
+    ([9, 9], .ok { LibFrame.build .ping [1, 2, 3] with length7 := 3 }) := by rfl
 
 /-- … and for frame objects with the mask flag set: what is read back is the frame the object
 stands for, payload unmasked. -/
@@ -203,6 +214,60 @@ theorem C18_stream_prefix (fs : List Frame) (chunks : List Buf) (future : Buf)
     feed_prefix chunks fs Handler.init future hcf rfl (by simpa [Handler.init] using hcut)
   exact ⟨done, todo, rest', e1, e2, deliveries_expected done false, by simpa [Handler.init] using e5, e3, e4⟩
 
+/-- **Segmentation is harmless for arbitrary bytes.**  Not only for canonical RFC encodings: for
+*every* byte string (non-minimal length forms, fin = 0, reserved bits, Close in the middle, garbage
+the reader happens to accept, …) on which handling it in one read raises no exception, *every*
+way of cutting it into reads — from any handler state whose buffer holds no complete frame, e.g.
+the initial one — gives the same final state and the same events in the same order as the single
+read. -/
+theorem C18_segmentation_invariant (h : Handler) (chunks : List Buf) (hf : hasFrame h.buf = false)
+    (hok : (h.call chunks.flatten).2.2 = none) : h.feed chunks = h.call chunks.flatten :=
+  feed_eq_call chunks h hf hok
+
+/-- Hence any two segmentations of the same bytes are indistinguishable to the endpoint. -/
+theorem C18_chunkings_agree (cs1 cs2 : List Buf) (he : cs1.flatten = cs2.flatten)
+    (hok : (Handler.init.call cs1.flatten).2.2 = none) :
+    Handler.init.feed cs1 = Handler.init.feed cs2 :=
+  feed_chunkings_agree cs1 cs2 Handler.init rfl he hok
+
+/-- the hypothesis of the two theorems above is met by every stream of client frames -/
+theorem C18_client_stream_no_error (fs : List Frame) (hcf : ∀ f ∈ fs, ClientFrame f = true) :
+    (Handler.init.call (flat fs)).2.2 = none := by
+  have h := C18_stream fs [flat fs] hcf (by simp)
+  simp only [Handler.feed] at h
+  rcases hc : Handler.init.call (flat fs) with ⟨h', evs, e⟩
+  rw [hc] at h
+  cases e with
+  | none => rfl
+  | some e => simp at h
+
+/-- The parse of a complete frame is local: whatever follows it in the buffer (the next frames,
+half of the next frame, nothing) changes neither the frame returned nor the bytes consumed. -/
+theorem C18_parse_local (buf more : Buf) (h : hasFrame buf = true) :
+    readFrame (buf ++ more) = ((readFrame buf).1 ++ more, (readFrame buf).2) :=
+  readFrame_append buf more h
+
+/-- `send(text)` writes exactly the RFC encoding of an unmasked final Text frame carrying the
+UTF-8 bytes, for every text shorter than 2^63 bytes, and leaves the handler unchanged; the reply
+`close()` writes is the RFC encoding of a Close frame (status 200, "OK"). -/
+theorem C18_send_rfc (h : Handler) (msg : Buf) (hn : msg.length < 2 ^ 63) :
+    (h.send msg).1 = h ∧ (h.send msg).2.2 = none ∧
+    written (h.send msg).2.1 =
+      Rfc.encode { fin := true, rsv1 := false, rsv2 := false, rsv3 := false, opcode := .text,
+                   mask := none, payload := msg } ∧
+    written closeWrites =
+      Rfc.encode { fin := true, rsv1 := false, rsv2 := false, rsv3 := false, opcode := .close,
+                   mask := none, payload := [0x00, 0xC8, 0x4F, 0x4B] } := by
+  obtain ⟨h1, h2⟩ := C18_server_frames_rfc .text msg rfl hn
+  refine ⟨rfl, h1, ?_, by decide⟩
+  simp only [Handler.send, LibFrame.Text, written_map_wrote, h2]
+
+/-- `hasFrame()` transcribed statement by statement from the Python (length tests, `buf[1]`,
+slices, `struct.unpack`) never raises and computes exactly the pattern-matching predicate
+`hasFrame` that the loop model and all theorems above use. -/
+theorem C18_hasFrame_literal (buf : Buf) : hasFrameLit buf = .ok (hasFrame buf) :=
+  hasFrame_literal buf
+
 /-- error branches of the handler loop: a complete frame without the mask bit raises `Exception`,
 a Text frame whose payload is not UTF-8 raises `UnicodeDecodeError`; in both cases the frame is
 consumed and nothing is delivered. -/
@@ -218,6 +283,16 @@ theorem C18_handler_rejects (f : Frame) (rest : Buf) (c : Bool) (hw : f.opcode.i
     simp [Handler.stepFrame, hr, LibFrame.ofSpec, hm]
   · intro hm ht hv
     simp [Handler.stepFrame, hr, LibFrame.ofSpec, hm, ht, hv]
+
+/-- The validity check that stands for `payload.decode("utf-8")` is exact: a byte string passes iff
+it is the UTF-8 encoding of a sequence of Unicode scalar values (`Char`), by Lean core's own
+arithmetic encoder.  So the "Text payloads are valid UTF-8" clause of `ClientFrame` admits every
+text and nothing else. -/
+theorem C18_utf8_exact (b : Buf) :
+    validUtf8 b = true ↔ ∃ cs : List Char, b = cs.flatMap String.utf8EncodeChar := by
+  constructor
+  · exact validUtf8_decode b.length b rfl
+  · rintro ⟨cs, rfl⟩; exact validUtf8_encode cs
 
 example : validUtf8 [0xC0, 0xAF] = false ∧ validUtf8 [0xED, 0xA0, 0x80] = false ∧
     validUtf8 [0xF0, 0x9F, 0x98, 0x80] = true := by decide
